@@ -29,7 +29,23 @@ type solverDef struct {
 	Args func(file string, timeoutS int) []string
 }
 
+// z3bb: z3 5.1 with an explicit simplify/solve-eqs/bit-blast pipeline; decides some arithmetic-heavy QF goals
+// the default strategies time out on. It reads a copy of the script with (check-sat) replaced.
+const bbTactic = "(check-sat-using (then simplify propagate-values solve-eqs elim-uncnstr simplify bit-blast sat))"
+
+func bbFile(f string) string {
+	b, err := os.ReadFile(f)
+	if err != nil {
+		return f
+	}
+	s := strings.Replace(string(b), "(check-sat)", bbTactic, 1)
+	out := strings.TrimSuffix(f, ".smt2") + ".bb.smt2"
+	os.WriteFile(out, []byte(s), 0o644)
+	return out
+}
+
 var solvers = []solverDef{
+	{"z3-new-bb", func(f string, t int) []string { return []string{"z3-new", "-smt2", fmt.Sprintf("-T:%d", t), bbFile(f)} }},
 	{"z3-new", func(f string, t int) []string { return []string{"z3-new", "-smt2", fmt.Sprintf("-T:%d", t), f} }},
 	{"cvc5", func(f string, t int) []string {
 		return []string{"cvc5", "--lang=smt2", fmt.Sprintf("--tlimit=%d", t*1000), f}
@@ -60,6 +76,9 @@ func runSolver(ctx context.Context, sd solverDef, file string, timeoutS int) (st
 	first := strings.TrimSpace(strings.SplitN(out, "\n", 2)[0])
 	switch first {
 	case "unsat", "sat", "unknown":
+		if sd.Name == "z3-new-bb" && first != "unsat" {
+			return "unknown", out, secs // the pipeline is only trusted for refutations
+		}
 		return first, out, secs
 	case "timeout":
 		return "timeout", out, secs
